@@ -629,6 +629,8 @@ def fam_random(rng):
     return dict(family="random", models=models, layout="ws", lex_overlap=False)
 
 
+MAX_TOKENS = {"amb": 7, "random": 10, "nullable": 12}
+
 FAMILIES = {
     "expr": fam_expr,
     "stmt": fam_stmt,
@@ -709,6 +711,9 @@ def gen_input(rng, sc, version=None, p_damage=0.5, max_faults=3, kinds=None):
     v = rng.randrange(len(models)) if version is None else version
     m = models[v]
     toks = m.sentence(rng, depth=rng.randint(1, 5))
+    mt = MAX_TOKENS.get(sc["family"], 40)
+    if len(toks) > mt:
+        toks = toks[: rng.randint(1, mt)]
     fired = []
     if rng.random() < p_damage:
         toks, fired = damage(rng, toks, m, kinds or DAMAGE_KINDS, rng.randint(1, max_faults))
